@@ -817,6 +817,44 @@ func runC18(r *engine.Run) {
 	}
 
 	// ---- multicast keys (TS005)
+	// DevUpgradeImageAns with a valid image carries a version only a decoder can set (the field
+	// is unexported): the command as received re-encodes to the bytes it came from, alone and
+	// followed by another command
+	fwVersions := []uint32{0, 1, 0x01020304, 0xFFFFFFFF, 0x80000000, 0x00FF00FF}
+	r.PartDims("firmwaremanagement/DevUpgradeImageAns/received", []string{"status byte:0..255", fmt.Sprintf("version:%d", len(fwVersions)), "follower{none, DevVersionAns}"}, 256*uint64(len(fwVersions))*2, func(c *engine.Case) {
+		st := byte(c.Index % 256)
+		ver := fwVersions[(c.Index/256)%uint64(len(fwVersions))]
+		follower := c.Index/256/uint64(len(fwVersions)) == 1
+		c.Eval()
+		wire := []byte{0x04, st}
+		if st&3 == 3 {
+			wire = append(wire, byte(ver), byte(ver>>8), byte(ver>>16), byte(ver>>24))
+		}
+		canon := append([]byte(nil), wire...)
+		canon[1] &= 3 // RFU bits are not carried
+		if follower {
+			wire = append(wire, 0x01, 1, 2, 3, 4, 5, 6, 7, 8)
+			canon = append(canon, 0x01, 1, 2, 3, 4, 5, 6, 7, 8)
+		}
+		var cmds firmwaremanagement.Commands
+		if err := cmds.UnmarshalBinary(true, append([]byte(nil), wire...)); err != nil {
+			c.Fail("firmwaremanagement/DevUpgradeImageAnsPayload/received-not-decodable", fmt.Sprintf("%x: %v", wire, err), nil)
+			return
+		}
+		c.NonTrivial()
+		want := 1
+		if follower {
+			want = 2
+		}
+		if len(cmds) != want {
+			c.Fail("firmwaremanagement/DevUpgradeImageAnsPayload/received-framing", fmt.Sprintf("%x decodes to %d commands, expected %d", wire, len(cmds), want), nil)
+			return
+		}
+		back, err := cmds.MarshalBinary()
+		if err != nil || !bytes.Equal(back, canon) {
+			c.Fail("firmwaremanagement/DevUpgradeImageAnsPayload/received-re-encoding", fmt.Sprintf("%x re-encodes to %x (err %v), expected %x", wire, back, err, canon), nil)
+		}
+	})
 	r.PartDims("multicast-keys", []string{"key:3", "McAddr:3 + 32 single-bit walks"}, 3*35, func(c *engine.Case) {
 		key := c02Keys[c.Index%3]
 		ai := int(c.Index / 3)
